@@ -32,6 +32,12 @@ def check_observed(ctx, interp, item, bits, data, prev_dt, dmap, label=""):
     if type_of(item) is G.EnableDeviceType:
         ctx.prove(label + "enable-device-type-recognised", And(bits == 16, (data >> 8) == 0xC1, item.param == (data & 0xFF)))
         return
+    if getattr(ctx, "native", False):
+        # replay on the real code: the delivered object is what the real decoder makes of the frame in this context
+        want = C.from_frame(F.ForwardFrame(bits, data), devicetype=prev_dt, dev_inst_map=dmap)
+        ctx.prove(label + "decoded-through-from_frame", type(item) is type(want) and item.frame == want.frame
+                  and str(item) == str(want), detail="delivered %s, decoder gives %s" % (item, want))
+        return
     du = decoded_under(item)
     ok = du is not None
     ctx.prove(label + "decoded-through-from_frame", ok)
@@ -363,7 +369,7 @@ def watcher_units(unit):
         reg = ctx.new(HID._callback, _parent=None, _callbacks={1: sub})
         drv = ctx.new(HID.tridonic, _log=logging.getLogger("x"), _bus_watch_data=ctx.track([]),
                       _bus_watch_data_available=world.event(False, "watch"), bus_traffic=reg, dev_inst_map=dmap)
-        reg.fields["_parent"] = drv
+        interp.set_attr(reg, "_parent", drv)
         st.update(ctx=ctx, world=world, drv=drv, input=None, pending=None, dt=0, nlog=0)
         if ctx.native:
             return
@@ -372,6 +378,9 @@ def watcher_units(unit):
     unit("hid/tridonic-watcher-step", r_watch,
          loops={(WATCH, 0): LoopSpec("watch", inv, havoc)})
 
+
+# checks whose proof units establish the callee contracts applied here (re-verified by this check, see main.dependency_units)
+DEPENDENCIES = ['C04', 'C05', 'C01']
 
 META = {
     "level": "proof",
